@@ -8,6 +8,8 @@ use tokio::sync::{Mutex, RwLock};
 #[derive(Debug)]
 pub struct SegmentLifecycleTracker {
     states: RwLock<HashMap<u64, SegmentLifecycleState>>,
+    /// WAL log id from which logs must be kept once the segment is durable (see `WalHandle::rotate`)
+    wal_cutoffs: RwLock<HashMap<u64, u64>>,
 }
 
 #[derive(Debug)]
@@ -29,7 +31,21 @@ impl SegmentLifecycleTracker {
     pub fn new() -> Self {
         Self {
             states: RwLock::new(HashMap::new()),
+            wal_cutoffs: RwLock::new(HashMap::new()),
         }
+    }
+
+    /// Record that every event of `segment_id` is stored in WAL logs with an id below `keep_from_log_id`
+    pub async fn set_wal_cutoff(&self, segment_id: u64, keep_from_log_id: u64) {
+        self.wal_cutoffs
+            .write()
+            .await
+            .insert(segment_id, keep_from_log_id);
+    }
+
+    /// Take the WAL cut-off recorded for `segment_id`, if any
+    pub async fn take_wal_cutoff(&self, segment_id: u64) -> Option<u64> {
+        self.wal_cutoffs.write().await.remove(&segment_id)
     }
 
     /// Register a segment flush with its passive buffer
